@@ -282,6 +282,98 @@ Corollary resolve_main_inconclusive P lb sts p :
   so_res (fd_resolve P lb None sts) = NotSolved.
 Proof. rewrite (resolve_is_fresh_run false false). apply fd_main_inconclusive. Qed.
 
+(* --- subgraph-scanning lower bound (nested searches over windows) *)
+Lemma skipn_add {A} (l : list A) : forall a b, skipn b (skipn a l) = skipn (a + b) l.
+Proof. induction l as [|x l IH]; intros [|a] b; simpl; try reflexivity; [destruct b; reflexivity|apply IH]. Qed.
+
+Lemma inconclusive_at_skipn sts N p : N <= p -> inconclusive_at sts p -> inconclusive_at (skipn N sts) (p - N).
+Proof.
+  intros Hle (x & Hx & Hc). exists x. split; [|exact Hc].
+  rewrite nth_error_skipn'. replace (N + (p - N)) with p by lia. exact Hx.
+Qed.
+
+(* a window whose own search met an inconclusive status in its main loop is unsolved and contributes NO bound *)
+Theorem scan_inconclusive_window_no_bound sk ex W ws sts b n p :
+  inconclusive_at sts p -> aux (fd_solve sk ex W sts) <= p < used (fd_solve sk ex W sts) ->
+  scan sk ex (W :: ws) sts b n =
+  scan sk ex ws (skipn (used (fd_solve sk ex W sts)) sts) b (n + used (fd_solve sk ex W sts)).
+Proof.
+  intros Hi Hp. pose proof (fd_main_inconclusive sk ex W sts p Hi Hp) as Hr.
+  cbn [scan]. rewrite Hr. reflexivity.
+Qed.
+
+(* the bound that comes out of the scan is the initial one or the size of a window that was itself Solved *)
+Lemma scan_bound_certified sk ex ws : forall sts b0 n0 b n,
+  scan sk ex ws sts b0 n0 = LB b n ->
+  b = b0 \/ exists W sts', In W ws /\ so_res (fd_solve sk ex W sts') = Solved b.
+Proof.
+  induction ws as [|W ws IH]; intros sts b0 n0 b n H; cbn [scan] in H.
+  - injection H as <- _. left. reflexivity.
+  - destruct (so_res (fd_solve sk ex W sts)) eqn:Er; try discriminate.
+    + apply IH in H. destruct H as [H|(W' & s' & Hin & Hs)].
+      * destruct (Nat.max_dec b0 k) as [Hm|Hm]; rewrite Hm in H; [left; exact H|].
+        right. exists W, sts. split; [left; reflexivity|]. rewrite H. exact Er.
+      * right. exists W', s'. split; [right; exact Hin|exact Hs].
+    + apply IH in H. destruct H as [H|(W' & s' & Hin & Hs)]; [left; exact H|].
+      right. exists W', s'. split; [right; exact Hin|exact Hs].
+    + apply IH in H. destruct H as [H|(W' & s' & Hin & Hs)]; [left; exact H|].
+      right. exists W', s'. split; [right; exact Hin|exact Hs].
+Qed.
+
+Definition scan_view (P : fd_params) : fd_params :=
+  mkfd (lb0 P) (upper_excl P) (nedges P) (use_mgs P) (nweights P) (guessed P) (gw_paths P) (greedy P) never.
+
+(* main loop after the scan: any inconclusive status that was consumed there gives not-solved *)
+Theorem mfd_scan_main_inconclusive sk ex P ws sts p :
+  inconclusive_at sts p ->
+  aux (mfd_scan_solve sk ex P ws sts) <= p < used (mfd_scan_solve sk ex P ws sts) ->
+  so_res (mfd_scan_solve sk ex P ws sts) = NotSolved.
+Proof.
+  intros Hi. unfold mfd_scan_solve.
+  destruct (lb_phase sk ex (use_mgs P) (lb0 P) (nweights P) sts) as [lb1 n1|n|n]; cbn [aux used so_res]; try lia.
+  destruct (scan sk ex ws (skipn n1 sts) 0 0) as [b n2|n2|n2]; cbn [aux used so_res]; try lia.
+  intros Hp. apply (resolve_main_inconclusive _ _ _ (p - (n1 + n2))).
+  - apply inconclusive_at_skipn; [lia|exact Hi].
+  - lia.
+Qed.
+
+(* the first k of the main loop: max of a justified MinGenSet/solver-free bound and a certified window optimum;
+   and a Solved k carries the usual certificate for the main loop *)
+Theorem mfd_scan_sound ex P ws sts k :
+  so_res (mfd_scan_solve false ex P ws sts) = Solved k ->
+  let o := mfd_scan_solve false ex P ws sts in
+  (exists lb1 b, lbk o = Nat.max lb1 b /\
+     (lb1 = lb0 P \/ (use_mgs P = true /\ exists kg m, lb1 = Nat.max (lb0 P) kg /\ lb0 P <= kg /\
+                        map status_of (firstn m sts) = repeat Infeasible (kg - lb0 P) ++ [Optimal])) /\
+     (b = 0 \/ exists W sts', In W ws /\ so_res (fd_solve false ex W sts') = Solved b)) /\
+  lbk o <= k < upper (upper_excl P) (nedges P) /\ aux o <= used o /\
+  exists tail,
+    map status_of (firstn (used o - aux o) (skipn (aux o) sts)) = repeat Infeasible (k - lbk o) ++ tail /\
+    (tail = [Optimal] \/ tail = []).
+Proof.
+  unfold mfd_scan_solve.
+  destruct (lb_phase false ex (use_mgs P) (lb0 P) (nweights P) sts) as [lb1 n1|n|n] eqn:El; cbn [so_res]; try discriminate.
+  destruct (scan false ex ws (skipn n1 sts) 0 0) as [b n2|n2|n2] eqn:Es; cbn [so_res]; try discriminate.
+  set (lb2 := Nat.max lb1 b). set (N := n1 + n2).
+  rewrite (resolve_is_fresh_run false false). intros H. cbn zeta. cbn [lbk aux used].
+  split.
+  { exists lb1, b. split; [reflexivity|]. split.
+    - apply lb_phase_justified in El. destruct El as [->|(Hu & kg & -> & Hk & Hs)]; [left; reflexivity|right].
+      split; [exact Hu|]. exists kg, n1. repeat split; auto.
+    - apply scan_bound_certified in Es. destruct Es as [->|Hw]; [left; reflexivity|right; exact Hw]. }
+  pose proof (fd_sound_main false false _ _ k H) as (H1 & H2 & _ & tail & H4 & H5). cbn zeta in *.
+  rewrite (failed_run_leaves_no_trace false false) in H1, H4. unfold lb_phase in H1, H4. cbn [use_mgs lb0 upper_excl nedges] in H1, H4.
+  split; [exact H1|]. split; [lia|]. exists tail. split.
+  - rewrite skipn_add in H4. replace (N + used _ - (N + aux _)) with (used (fd_solve false false
+      (mkfd lb2 (upper_excl (scan_view P)) (nedges (scan_view P)) false (nweights (scan_view P)) (guessed (scan_view P))
+            (gw_paths (scan_view P)) (greedy (scan_view P)) (over (scan_view P))) (skipn N sts)) -
+      aux (fd_solve false false
+      (mkfd lb2 (upper_excl (scan_view P)) (nedges (scan_view P)) false (nweights (scan_view P)) (guessed (scan_view P))
+            (gw_paths (scan_view P)) (greedy (scan_view P)) (over (scan_view P))) (skipn N sts))) by (unfold scan_view; cbn; lia).
+    exact H4.
+  - destruct H5 as [H5|(H5 & _)]; [left|right]; exact H5.
+Qed.
+
 (* --- MinFlowDecomp *)
 Definition mfd_view (P : fd_params) : fd_params :=
   mkfd (lb0 P) (upper_excl P) (nedges P) (use_mgs P) (nweights P) (guessed P) (gw_paths P) (greedy P) never.
